@@ -102,6 +102,42 @@ theorem no_active_of_unstarted {c : Cfg} {g : Graph} {s : St} {t : Nat} {k : Tas
     have := h.serial he j t kj k hj hk hjd hkd
     subst this; rw [hk] at hj; cases hj; exact hkna haj
 
+/-- `CancelledError` reaches an invocation queued on the scope lock: it never entered a
+scope, so nothing of the manager's bookkeeping is its own. -/
+theorem inv_cancelWait {c : Cfg} {g : Graph} {s : St} {t : Nat} {k : Task} (h : Inv c g s)
+    (hk : s.tasks[t]? = some k) (hph : k.phase = .lockWait) : Inv c g (cancelWait s t k) := by
+  have hu : k.unstarted := Or.inr hph
+  have hna : k.phase ≠ .active := by simp [hph]
+  have hnd : ¬ k.isDone := by rintro ⟨o, ho⟩; simp [ho] at hph
+  have hcore : ∀ (w : List Nat), Inv c g { s with
+      tasks := s.tasks.set t { k with phase := .done .cancelled, stack := [], todo := [] },
+      log := .fin t .cancelled :: s.log, waiters := w, cur := none } := by
+    intro w
+    refine Inv.update_inactive (k' := { k with phase := .done .cancelled, stack := [], todo := [] }) h hk hna hnd
+      rfl (by simp) rfl rfl rfl rfl rfl (fun e he => List.mem_cons_of_mem _ he) ?_ ?_ rfl ?_ ?_
+    · exact h.toLogInv.add_inert (e := .fin t .cancelled) trivial rfl rfl rfl
+    · intro t' x; exact countMadeBy_cons_other (by intros; simp) t' x
+    · intro hu'; rcases hu' with hu' | hu' <;> simp at hu'
+    · intro o ho; simp at ho; subst ho; simp [OutcomeOk]
+  unfold cancelWait
+  simp only
+  split
+  · rename_i hlock
+    have hno := no_active_of_unstarted h hk hu (fun _ => Or.inr hlock)
+    have hno' : ∀ (j : Nat) (kj : Task),
+        (s.tasks.set t { k with phase := .done .cancelled, stack := [], todo := [] })[j]? = some kj →
+        kj.phase ≠ .active := by
+      intro j kj hj
+      rw [getElem?_set_tasks hk] at hj
+      by_cases hjt : j = t
+      · simp [hjt] at hj; subst hj; simp
+      · simp [hjt] at hj; exact hno j kj hj
+    split
+    · exact (hcore s.waiters).set_lock_idle hno' none [] none
+    · rename_i w ws _
+      exact (hcore s.waiters).set_lock_idle hno' (some w) ws none
+  · exact hcore (s.waiters.erase t)
+
 theorem inv_tickTask {c : Cfg} {g : Graph} {s : St} {t : Nat} {k : Task} (h : Inv c g s)
     (hk : s.tasks[t]? = some k) : Inv c g (tickTask c g s t k) := by
   unfold tickTask
@@ -233,6 +269,23 @@ theorem inv_step {c : Cfg} {g : Graph} {s : St} (a : Act) (h : Inv c g s)
         · split
           · simp only [Option.getD_some]; exact h.set_cur (some t)
           · exact h
+        · exact h
+  | cancel t =>
+    simp only
+    split
+    · exact h
+    · split
+      · exact h
+      · rename_i k hk
+        split
+        · rename_i f fs hph hst
+          split
+          · simp only [Option.getD_some]
+            exact inv_raise h hk hph (by simp [OutcomeOk])
+          · exact h
+        · rename_i hph
+          simp only [Option.getD_some]
+          exact inv_cancelWait h hk hph
         · exact h
 
 /-- the schedule never starts an invocation while another one is unfinished -/
